@@ -96,6 +96,13 @@ def check(prog, res, tier):
             if sz is None:
                 fails.append(definite('refill reads the whole file at once', r.node))
                 continue
+            szc = st.canon(Lin.of(sz))
+            if szc.is_const() and szc.c > BLOCK and szc.c % BLOCK == 0:
+                # several whole blocks per read: a different design of the refill, which this rule (one block per iteration,
+                # its first 1012 bytes appended) does not model
+                fails.append(soft(f'refill reads {szc.c // BLOCK} blocks ({szc.c} bytes) at a time: a multi-block refill is '
+                                  f'outside the model of this rule', r.node))
+                continue
             fails += need_eq0(st, Lin.of(sz) - BLOCK, f'refill reads {st.canon(Lin.of(sz))} bytes, not one {BLOCK}-byte block', r.node)
             block = r.data['data']
             pre = s0.get(('attr', 'buffer'))
@@ -186,6 +193,29 @@ def check(prog, res, tier):
     res.add(runs_n.judge('C05.c', 'read(n) returns buffer[:k] and keeps buffer[k:] with the same k = min(n, available)',
                          func_where(ufi), 'output = self.buffer[:n]; self.buffer = self.buffer[n:]', chk_c))
 
+    # ---- C05.b whatever the refill looks like: a sized read comes back short only when the file is exhausted
+    def chk_short(p, mode):
+        if p.outcome != 'return':
+            return []
+        out, n, f = p.value, p.interp.user['n'], p.interp.user['file']
+        if not isinstance(out, SeqV):
+            return [soft('read() result is not a byte sequence')]
+        st = p.store
+        # (a path that never touched the file has no content yet: coming back short there is coming back short without looking)
+        conds = [n.lin - out.length() - 1] + ([f.src.length - f.pos - 1] if f.src is not None else [])
+        trial = st.copy()
+        try:
+            for x in conds:
+                if trial.refutes_ge0(x):
+                    return []
+                trial.assume_ge0(x)
+        except Infeasible:
+            return []
+        return [Failure('read(n) returns fewer bytes than requested although the blocked file is not exhausted (the caller takes '
+                        'a short read for the end of the data)', neg=[conds])]
+    res.add(runs_n.judge('C05.b', 'a sized read returns fewer bytes than requested only when the wrapped file is exhausted',
+                         func_where(ufi), 'output = self.buffer[:bytes_to_read]', chk_short, rule='C05.b.short'))
+
     # ---- C05.d read-all
     def chk_d(p, mode):
         if p.outcome != 'return':
@@ -197,8 +227,12 @@ def check(prog, res, tier):
             return [soft('read() result is not a byte sequence')]
         fails = []
         if not same_seq(p, out, g):
-            fails.append(Failure(f'read() without a size returns {out!r} although the buffer holds {g!r}',
-                                 neg=[[g.length() - 1]]))
+            if any(isinstance(x, Opq) for v in (out, g) for x in v.segs):
+                # the refill is not the block-by-block loop this rule follows: what is returned could not be compared
+                fails.append(soft(f'read() without a size returns {out!r}, which could not be compared with the buffered data {g!r}'))
+            else:
+                fails.append(Failure(f'read() without a size returns {out!r} although the buffer holds {g!r}',
+                                     neg=[[g.length() - 1]]))
         fails += need_eq0(p.store, keep.length(), 'read() without a size leaves bytes in the buffer (they would be delivered twice)')
         # the loop must have run to end of file
         f = p.interp.user['file']
